@@ -189,25 +189,50 @@ def random_saving_table(rng, n, p, v):
     return S
 
 
+def linear_saving_table(rng, n, p):
+    """Nearly additive tables (a dense anomaly with about the same level in every component): the savings of
+    long intervals stay close to the sum of their parts, so early starts remain optimal for late ends --
+    the regime in which a pruning margin that is too small shows."""
+    w = [int(rng.integers(3, 11)) for _ in range(p)]
+    S = {}
+    for ln in range(1, n + 1):
+        for s in range(0, n - ln + 1):
+            e = s + ln
+            if ln == 1:
+                S[(s, e)] = [max(0, w[j] - int(rng.integers(0, 2)) * int(rng.integers(0, 3))) for j in range(p)]
+            else:
+                S[(s, e)] = [max(0, min(S[(s, k)][j] + S[(k, e)][j] for k in range(s + 1, e))
+                                 - (0 if rng.random() < 0.7 else int(rng.integers(0, 3)))) for j in range(p)]
+    return S
+
+
 def record_r1(seed, count, nmax):
     rng = np.random.default_rng(seed)
     out = []
     for i in range(count):
-        n = int(rng.integers(2, nmax + 1))
-        p = int(rng.choice([1, 1, 2, 3]))
-        m = int(rng.integers(2, max(2, min(n, 5)) + 1))
+        linear = bool(i % 2)
+        n = int(rng.integers(5 if linear else 2, nmax + 2 if linear else nmax + 1))
+        p = int(rng.choice([2, 2, 3])) if linear else int(rng.choice([1, 1, 2, 3]))
+        m = int(rng.integers(2, max(2, min(n, 3 if linear else 5)) + 1))
         if m > n:
             m = n
         if m < 2:
             continue
-        mx = int(rng.integers(m, n + 3))
+        mx = int(rng.integers(m, n)) if linear else int(rng.integers(m, n + 3))
         v = int(rng.integers(1, 6))
-        S = random_saving_table(rng, n, p, v)
-        ca = int(rng.integers(0, 5))
-        pa = int(rng.integers(0, 5))
-        fam = int(rng.integers(0, 3))
-        cb = [0] * p if fam == 0 else [int(rng.integers(0, 3))] * p if fam == 1 else [int(rng.integers(0, 3)) for _ in range(p)]
-        pb = [int(rng.integers(0, 2))] * p
+        if linear:
+            S = linear_saving_table(rng, n, p)
+            ca = int(rng.integers(0, 3))
+            cb = [int(rng.integers(1, 12))] * p if rng.random() < 0.6 else sorted(int(rng.integers(0, 12)) for _ in range(p))
+            pa = int(rng.integers(5, 40))
+            pb = [0] * p
+        else:
+            S = random_saving_table(rng, n, p, v)
+            ca = int(rng.integers(0, 5))
+            pa = int(rng.integers(0, 5))
+            fam = int(rng.integers(0, 3))
+            cb = [0] * p if fam == 0 else [int(rng.integers(0, 3))] * p if fam == 1 else [int(rng.integers(0, 3)) for _ in range(p)]
+            pb = [int(rng.integers(0, 2))] * p
         table = {k: [float(x) for x in val] for k, val in S.items()}
         ignore = bool(rng.integers(0, 2))
         try:
